@@ -175,11 +175,11 @@ pub fn run(tier: Tier) -> Report {
     let n: u64 = tier.pick(256, 1024);
     let total = n * n * n;
     let d = (n - 1) as f32;
-    let acc = par_chunks(total, 1 << 15, |acc, lo, hi| {
+    let acc = par_chunks_varied(total, 1 << 15, |acc, lo, hi| {
         let px: Vec<[f32; 3]> = (lo..hi).map(|i| [(i / (n * n)) as f32 / d, ((i / n) % n) as f32 / d, (i % n) as f32 / d]).collect();
         check_rgb(acc, lo, &px);
         if lo == 0 {
-            let p = px[px.len() - 7];
+            let p = px[px.len() / 2];
             let (h, s, l, _) = hexcone_hsl([p[0] as f64, p[1] as f64, p[2] as f64]);
             acc.sample(json!({"rgb": px3s(p), "hexcone_hsl": [h, s, l]}));
         }
@@ -238,7 +238,7 @@ pub fn run(tier: Tier) -> Report {
     sl.push(f32::from_bits(1));
     sl.push(f32::from_bits(1f32.to_bits() - 1));
     let (nh, ns) = (hs.len() as u64, sl.len() as u64);
-    let acc = par_chunks(nh * ns * ns, 1 << 14, |acc, lo, hi| {
+    let acc = par_chunks_varied(nh * ns * ns, 1 << 14, |acc, lo, hi| {
         let px: Vec<[f32; 3]> = (lo..hi).map(|i| [hs[(i / (ns * ns)) as usize], sl[((i / ns) % ns) as usize], sl[(i % ns) as usize]]).collect();
         check_hsl(acc, total + 100_000 + lo, &px);
     });
